@@ -907,6 +907,51 @@ const SPECS: &[Spec] = &[
                (`ta_slow_rfc6492_request` reads the response, sends this command, and hands the response to the child only \
                if the command succeeded).",
     },
+    Spec {
+        id: "C02",
+        file: "src/server/ca/keys.rs",
+        ty: "KeyState",
+        method: "append_entitlement_events",
+        lean: "KeyState.keys_for_requests",
+        sig: "&self,handle:&CaHandle,rcn:ResourceClassName,entitlement:&ResourceClassEntitlements,base_repo:&RepoInfo,name_space:&str,signer:&KrillSigner,events:&mutVec<CertAuthEvent>->KrillResult<()>",
+        binders: "{K : Type} (self_state : KeyState) (pending_key current_key new_key old_key : K) (current_wants new_wants old_wants : Bool)",
+        args: "self_state pending_key current_key new_key old_key current_wants new_wants old_wants",
+        ret: "List K",
+        num: Num::Nat,
+        names: &[
+            ("self", "self_state"),
+            ("vec![]", "([] : List K)"),
+            ("(base_repo,pending.key_id)", "pending_key"),
+            ("(current.old_repo.as_ref().unwrap_or(base_repo),current.key_id,)", "current_key"),
+            ("(current.old_repo.as_ref().unwrap_or(base_repo),current.key_id)", "current_key"),
+            ("(new.old_repo.as_ref().unwrap_or(base_repo),new.key_id,)", "new_key"),
+            ("(old.key.old_repo.as_ref().unwrap_or(base_repo),current.key_id,)", "current_key"),
+            ("current.wants_update(handle,&rcn,entitlement.resource_set(),entitlement.not_after(),)", "current_wants"),
+            ("new.wants_update(handle,&rcn,entitlement.resource_set(),entitlement.not_after(),)", "new_wants"),
+            ("old.key.wants_update(handle,&rcn,entitlement.resource_set(),entitlement.not_after(),)", "old_wants"),
+        ],
+        methods: &[],
+        state_ty: &[],
+        elem_ty: "",
+        enums: &[("KeyState", "src/server/ca/keys.rs", "")],
+        structs: &[],
+        types: &[],
+        opaque_lets: &[],
+        effects: &[],
+        wrapper: None,
+        cond_effects: &[],
+        tail: Some((
+            "for(base_repo,key_id)inkeys_for_requests.into_iter(){events.push(CertAuthEvent::CertificateRequested{resource_class_name:rcn.clone(),req:self.create_issuance_req(base_repo,name_space,entitlement.class_name().clone(),&key_id,signer,)?,ki:key_id,});}forkeyinentitlement.issued_certs().iter().map(|c|c.cert().subject_key_identifier()){if!self.knows_key(key){letrevoke_req=RevocationRequest::new(entitlement.class_name().clone(),key,);events.push(CertAuthEvent::UnexpectedKeyFound{resource_class_name:rcn.clone(),revoke_req,});}}Ok(())",
+            "keys_for_requests",
+        )),
+        note: "only the first part of the function is translated: the `match self` that collects `keys_for_requests` (for which \
+               keys a certificate is requested, in order); the generated definition returns that list.  The key state enters \
+               as its variant and the identifiers of the keys in its payload (as for `knows_key`); a pushed pair `(repo, key \
+               id)` is its key id; `<key>.wants_update(handle, &rcn, entitlement.resource_set(), entitlement.not_after())` \
+               (itself translated: `CertifiedKey.wants_update`) is a Boolean parameter per key.  The closing statements - one \
+               `CertificateRequested` per collected key, then `UnexpectedKeyFound` for every listed key `knows_key` does not \
+               know - are compared verbatim.",
+    },
 ];
 
 type R = Result<String, String>;
@@ -2091,7 +2136,9 @@ pub fn run(repo: &Path, table: &str) -> String {
         }
         out.push_str(&format!("    {}\n", s.note));
     }
-    out.push_str("-/\nset_option linter.unusedVariables false\nnamespace KM.Gen\n\n");
+    // one namespace per property file (`KM.Gen.<ID>`): two properties may translate functions over the same Rust enum
+    let ns = match only { Some(id) => format!("KM.Gen.{id}"), None => "KM.Gen".to_string() };
+    out.push_str(&format!("-/\nset_option linter.unusedVariables false\nnamespace {ns}\n\n"));
 
     let mut enums_done: Vec<&str> = Vec::new();
     for s in specs.iter().copied() {
@@ -2141,6 +2188,6 @@ pub fn run(repo: &Path, table: &str) -> String {
             }
         }
     }
-    out.push_str("end KM.Gen\n");
+    out.push_str(&format!("end {ns}\n"));
     out
 }
